@@ -110,6 +110,11 @@ def verify_function(reg, contract, prefix=""):
                 ctx.facts.append(v.z > 0)
             if v.k == "str" and pn in contract.str_domains:
                 ctx.str_domains[v.z.get_id()] = list(contract.str_domains[pn])
+        if fsrc.node.args.vararg:
+            from .symexec import mk_tuple
+
+            st.env[fsrc.node.args.vararg.arg] = mk_tuple([])  # extra positional arguments only feed exception constructors
+            st.defd[fsrc.node.args.vararg.arg] = z3.BoolVal(True)
         fr = _new_frame(uid, fsrc.module, body, st.env, fsrc.loops, contract.invariants, None, fsrc.cls)
         fr.contract = contract
         fr.ghost_globals = contract.sidecar_globals
@@ -147,11 +152,7 @@ def verify_function(reg, contract, prefix=""):
         raise_conds = {}
         for (name, cls, cond) in contract.raises:
             if name.startswith("@"):
-                pv = entry.env.get(name[1:])
-                if pv is not None and pv.k == "conc" and isinstance(pv.z, type):
-                    cls = pv.z
-                else:
-                    cls = ParamExc(name[1:])
+                cls = ctx.param_classes[name[1:]]
             raise_conds[cls] = (name, cond)
         # --- normal exits
         for (o, v) in outs:
